@@ -17,6 +17,7 @@ package cbor
 //@ func (*IOCbor).DecodeRawEntry
 //@   requires validIO(i) && node != nil
 //@   ensures [decoded-entry-is-safe-to-use] err == nil ==> validEntry(result0) && fresh(result0)
+//@   ensures [decoded-entry-carries-the-requested-hash] err == nil ==> result0.Hash == hash
 
 
 //@ func NonceRefForEntry
